@@ -40,9 +40,10 @@ V_ARGS = ["1", "'s'", "true", "null", "1.5", "@", "@.a", "$[1]", "@[0]", "@.nope
           "kv(kv(@))"]
 N_ARGS = ["@.*", "@", "@..a", "$[*]", "@.nope", "hn(@.*)", "@[0,0]", "@[?@ == 1]", "$[0]"]
 L_ARGS = ["@.a", "@.*", "@ == 1", "!@.a", "@.a && @.b", "@.a || @", "gl(@)", "hn(@.*)", "(@ == 0)", "!(@.a == 0)", "@.nope", "1 == 1",
+          "nullable(@.a)", "truex(@.*)", "false_(@) == 0", "!nullable(@)",
           "match(@, 'a')", "!gl(@.a)", "$[?@ == 1]"]
 BY_TYPE = {"V": V_ARGS, "N": N_ARGS, "L": L_ARGS}
-HELPERS = [("kv", ["V"], "V"), ("gl", ["V"], "L"), ("hn", ["N"], "N")]
+HELPERS = [("kv", ["V"], "V"), ("gl", ["V"], "L"), ("hn", ["N"], "N"), ("nullable", ["V"], "L"), ("truex", ["N"], "N"), ("false_", ["V"], "V")]
 
 
 def shapes(ret: str, call: str, rng: random.Random):
